@@ -1,26 +1,47 @@
 """C18 - Low-pass calling model redistributes probability and vanishes at deep coverage
 
-Status: bounded run-time contracts only (props/bounded_C18.py) until the proof obligations of DESIGN.md 7 C18 are added.
+Contracts (contracts/py_wiring.py c18_*): split_list_by_lengths block law, projection_inbreeding = subset counting with multiplicity,
+probability_enough_individuals_covered = binomial tail, projection_matrix rows (F = 0: hypergeometric projection; F != 0: partition mixture),
+memo keys of the caches the calling model reads.  The stochastic / coverage-limit clauses stay with the bounded drivers (props/bounded_C18.py).
 """
 from vf.helpers import bounded_tasks
 
 META = dict(
-    level='exploration',
-    expects_obligations=False,
-    explanation='Run-time contracts on the real functions over the bounded domain stated per driver (bounded stand-in; nothing proved).',
+    level='other',
+    explanation='Closed-form contracts of the deterministic low-pass helpers discharged from their AST by z3 / the ring normaliser; the limit, row-stochasticity of the full calling model and the simulated regime are run-time contracts over the bounded domain stated per driver (never counted as proved).',
     trusted_base=['oracles of props/bounded_C18.py (independent of dadi: exact rationals, mpmath, dense linear algebra, explicit index loops)'],
     rule='cases enumerated or sampled as stated in each driver\'s bound; a case is non-trivial unless the driver marks it degenerate; distinct by its key',
 )
 
 
 def tasks(tier):
-    return bounded_tasks('C18', tier)
+    from vf.core import Task
+    W = lambda name, fname, **kw: Task('props.wire:run', name='C18/wire.' + name, fname=fname, kwargs=kw, timeout=300)
+    ts = [Task('props.C18:ob_memo', name='C18/memo-keys', timeout=180),
+          W('split_list', 'c18_split_list'),
+          W('projection_inbreeding.n3_k2', 'c18_projection_inbreeding', n=3, k=2),
+          W('projection_inbreeding.n4_k4', 'c18_projection_inbreeding', n=4, k=4),
+          W('enough_covered.6_4', 'c18_enough_covered', nseq=6, nsub=4),
+          W('enough_covered.8_2', 'c18_enough_covered', nseq=8, nsub=2),
+          W('enough_covered.10_6', 'c18_enough_covered', nseq=10, nsub=6),
+          W('projection_matrix.4_2', 'c18_projection_matrix', nseq=4, nsub=2)]
+    if tier == 'thorough':
+        ts += [W('projection_inbreeding.n5_k4', 'c18_projection_inbreeding', n=5, k=4),
+               W('projection_inbreeding.n6_k6', 'c18_projection_inbreeding', n=6, k=6),
+               W('enough_covered.12_5', 'c18_enough_covered', nseq=12, nsub=5),
+               W('projection_matrix.6_4', 'c18_projection_matrix', nseq=6, nsub=4)]
+    return ts + bounded_tasks('C18', tier)
+
+
+def ob_memo():
+    from contracts.py_memo import all_memo_obligations
+    return all_memo_obligations('C18', only=['cached_part', 'multinomln', 'BetaBinomln', '_cached_projection'])
 
 
 MANIFEST_ENTRY = dict(
-    category='exploration',
+    category='other',
     engine='bounded',
-    technique='bounded run-time contracts on the real functions with independent oracles (stand-in for the contract proofs, never counted as proved)',
+    technique='sidecar contracts on the real functions: wiring / closed-form obligations from the AST discharged by z3 and the ring normaliser where the functions are within reach; bounded run-time contracts with independent oracles for the rest (never counted as proved)',
     text='Partition enumeration exhaustively for n<=10, row-stochastic matrices, no-call bounds, deep-coverage limit, simulated regime.',
     note='bounded: see coverage.bounded.drivers[].bound in the evidence file for the exact domain of every driver',
 )
